@@ -16,7 +16,7 @@ d = d[:d.index('\n### 9.6 Seeded changes')]
 d += '''
 ### 9.6 Seeded changes (mutation trials) and which checks catch them
 
-Two rounds of changes were written by fresh sub-agents that saw only the text of
+Three rounds of changes were written by fresh sub-agents that saw only the text of
 one property and a private worktree of `/repo` (nothing from `/verif`):
 round 1 (A, B for all twenty properties) asked for realistic slips needing
 something specific to manifest; round 2 (C, D for all twenty) told the agent,
@@ -26,7 +26,11 @@ bytes on every back end and several builds, sanitizers, valgrind taint,
 allocator interposition with fault injection, emulated CPUID, TSan) and asked
 for changes such a checker is *likely to miss* (rare value patterns, carries
 out of bit 31/32/63, calls of 64 KiB..4 GiB, thousands of calls on one object,
-rarely combined options, pointer relations, untrappable instructions, ...).
+rarely combined options, pointer relations, untrappable instructions, ...);
+round 3 (E, F for all twenty) repeated round 2's brief and additionally
+required the two changes to differ from each other in mechanism and in the
+module touched (two cooperating edits, alternative-configuration-only code,
+compiler-specific arms, one-slot caches, ...).
 Each change was confirmed with `tools/confirm_seeded.py` in a scratch worktree
 (clean tree: 30 tests pass, demonstration passes; changed tree: 30 tests pass,
 demonstration fails) and the checks were run with `VERIF_REPO=<patched
@@ -104,6 +108,37 @@ Checks strengthened because a seeded change was first missed:
   and any VEX/EVEX-encoded instruction executed by code of the executable
   (libc excluded) is a violation.  Single-stepping costs ~3 us per instruction
   and is limited to the first sweeps of a run.
+
+* **C08-E -> C08**: a lookup-table S-box that exists only on the 32-bit-word
+  source path.  The C08 quick tier ran the taint grid on the shipped path only;
+  it now also runs it under MSan on `msan+W32` and `msan+NEUTRAL` (thorough:
+  memcheck on those builds too).
+* **C11-E / C14-E -> C11, C14** (both first caught only by the C16 fault
+  enumeration): a failed init that leaves handle fields unassigned, and two
+  cooperating edits that let a later call dereference the NULL context.  C11 now
+  marks the caller's handle undefined before every fault-injected init and tests
+  the definedness of the return value and of the handle afterwards (MSan and
+  memcheck); C14 now runs the failed-init battery itself (allocation faults
+  through the allocator monitor, every later call must return 0 without
+  faulting).
+* **C12-F -> C09**: a Clang-only attribute slip (aligned SIMD stores).  C12 caught
+  it through its clang configurations; C09 now also runs its misaligned
+  guard-buffer sweep on the `clang` build in the quick tier.
+* **C13-F -> C13**: init leaving the vtable unassigned on CPU models without SIMD
+  made the *driver* dereference garbage.  The handle's vtable is now first
+  checked to lie inside the executable's read-only data
+  (`handle-vtable-is-not-a-library-table-after-init`) before anything is read
+  through it.
+* **C15-F -> C15**: leaks in the init/cleanup storm loop were attributed to the
+  wrong object; the loop now compares against the live-block count at its start.
+* **C18-E -> C18**: a function-local `static` scratch buffer in the short-key
+  path of `skinny64_set_key`.  The thread workloads reached it only through CTR
+  histories (caught in 1 of 3 runs) and gcc's TSan does not see the inlined
+  `memcpy`.  Added a fourth workload ("key-setup storm": 16 threads x 600
+  back-to-back key/tweak set-ups of every legal length on private schedules,
+  each followed by block operations) and a `tsan+NOBUILTIN` build
+  (`-fno-builtin`, so `memcpy`/`memset` stay calls that the TSan runtime
+  intercepts); now 1 500+ differing transcripts and TSan reports in every run.
 
 ### 9.7 Behaviour-preserving changes (false-alarm trials)
 
